@@ -140,6 +140,8 @@ def shard(ctx):
         k += 1
         if k % 2500 == 900:
             check_text(ctx, 'bulk', hostile.bulk_statement(rng))
+        elif k % 2500 == 1900:
+            check_text(ctx, 'many', hostile.many_statements(rng))
         x = rng.random()
         if x < 0.3:
             kind, text = 'sepsoup', sep_soup(rng)
